@@ -359,6 +359,221 @@ def cli_stream(chk, n):
     return dict(dist)
 
 
+# ---------------------------------------------------------------------------------------------
+# CLI stream, Java / Kotlin partial paths (map_partial_path; outside the Gallina model)
+# The property's reading: with -s, a .java/.kt record whose path is package-relative denotes the source file whose path
+# ends with it (the only file of that name, if there is just one); the report without globs is that mapping, and
+# --ignore G / --keep-only G partition it.
+# Known class `ignore-prunes-partial-path-index`: an --ignore glob that matches the file a record maps to removes it from the
+# index: the record is then attributed to the one remaining same-named file, or stays under its partial path.
+# ---------------------------------------------------------------------------------------------
+JNAMES = ["Main.java", "Util.kt", "Helper.java", "Main.kt"]
+JDIRS = ["x", "y", "z"]
+JPKGS = ["com/a", "com/b", "org/c", "io/d/e"]
+KF_JAVA = "ignore-prunes-partial-path-index"
+
+
+def lcov_report(txt):
+    import c12
+    return collections.Counter((path, json.dumps(sorted(das))) for path, das in c12.parse_lcov(txt))
+
+
+def expected_report(recs, mapping, keep):
+    """records grouped under the path they denote, lines summed (C01), restricted to the paths `keep` accepts"""
+    groups = collections.defaultdict(list)
+    for (k, cov), path in zip(recs, mapping):
+        groups[path].append(cov)
+    return collections.Counter({(path, json.dumps(gen.ref_agg(cs)["lines"])): 1 for path, cs in groups.items() if keep(path)})
+
+
+def java_case(chk, exe, root, files, recs, d, dist, label, known):
+    """files: {rel path under root}; recs: [(SF, cov)]; glob = src/<d>/*.  Returns False on a violation."""
+    import os, c12
+    run_dir = os.path.join(root, "run")
+    os.makedirs(run_dir, exist_ok=True)
+    for f in files:
+        os.makedirs(os.path.dirname(os.path.join(root, f)), exist_ok=True)
+        open(os.path.join(root, f), "w").write("x\n")
+    info = os.path.join(run_dir, "in.info")
+    open(info, "w").write(c12.render_lcov(recs))
+    glob = "src/%s/*" % d
+    under = lambda path: path.startswith("src/%s/" % d)
+    is_j = lambda k: k.endswith(".java") or k.endswith(".kt")
+
+    def target(k, index):
+        """map_partial_path as the property reads it, over the files in `index`"""
+        if not is_j(k):
+            return k
+        name = k.rsplit("/", 1)[-1]
+        cands = [f for f in index if f.rsplit("/", 1)[-1] == name]
+        if len(cands) == 1:
+            return cands[0]
+        ends = [f for f in cands if f == k or f.endswith("/" + k)]
+        return ends[0] if len(ends) == 1 else k
+    jfiles = sorted(f for f in files if is_j(f))
+    needed = any(not os.path.exists(os.path.join(root, k)) for k, _ in recs) and any(is_j(k) for k, _ in recs)
+    full = [target(k, jfiles) if needed else k for k, _ in recs]
+    outs = {}
+    base_args = [exe, info, "-s", root, "-t", "lcov"]
+    for name, extra in (("none", []), ("ignore", ["--ignore", glob]), ("keep", ["--keep-only", glob])):
+        p = vlib.sh(base_args + extra, cwd=run_dir, timeout=120)
+        chk.count()
+        if p.returncode != 0:
+            chk.violation({"kind": "oracle", "engine": "cli-java", "args": (base_args + extra)[1:], "files": sorted(files), "input": c12.render_lcov(recs),
+                           "stderr": p.stderr[-600:], "clause": "grcov must produce a report"}, tag=label)
+            return False
+        outs[name] = lcov_report(p.stdout)
+    replay = {"kind": "oracle", "engine": "cli-java", "root": root, "files": sorted(files), "glob": glob, "input": c12.render_lcov(recs),
+              "reports": {k: sorted(v.elements()) for k, v in outs.items()}}
+    ok = True
+    want_none = expected_report(recs, full, lambda p_: True)
+    if outs["none"] != want_none:
+        chk.violation(dict(replay, expected=sorted(want_none.elements()),
+                           clause="with -s a package-relative .java/.kt record is reported under the source file whose path ends with it (data unchanged)"), tag=label)
+        ok = False
+    want_keep = expected_report(recs, full, under)
+    if outs["keep"] != want_keep:
+        chk.violation(dict(replay, expected=sorted(want_keep.elements()),
+                           clause="the --keep-only G report is exactly the matching part of the unfiltered report (paths and data)"), tag=label)
+        ok = False
+    want_ign = expected_report(recs, full, lambda p_: not under(p_))
+    if outs["ignore"] != want_ign:
+        # the known class: some record's file matches the glob, so the index it is looked up in was pruned
+        pruned = [f for f in jfiles if not under(f)]
+        wrong = expected_report(recs, [target(k, pruned) if needed else k for k, _ in recs], lambda p_: not under(p_))
+        in_class = needed and any(is_j(k) and under(t) for (k, _), t in zip(recs, full))
+        if in_class and outs["ignore"] == wrong and KF_JAVA in known:
+            dist["known_ignore_prunes_index"] += 1
+        else:
+            chk.violation(dict(replay, expected=sorted(want_ign.elements()), known_wrong=sorted(wrong.elements()), in_known_class=in_class,
+                               clause="the --ignore G report is exactly the non-matching part of the unfiltered report (paths and data)"), tag=label)
+            ok = False
+    else:
+        dist["ignore_reports_right"] += 1
+    if outs["keep"] + want_ign != want_none:
+        pass          # (by construction of the expectations; kept for the reader: keep ⊎ ignore = none)
+    dist["keep_nonempty_and_ignore_nonempty"] += bool(want_keep) and bool(want_ign)
+    return ok
+
+
+def java_stream(chk, n, known):
+    import os, shutil
+    exe = vlib.build_cli()
+    sc = os.path.realpath(vlib.scratch("clij_" + chk.pid))
+    rng = chk.rng
+    dist = collections.Counter()
+    # ---- the witness of the known finding, on every run
+    root = os.path.join(sc, "w")
+    files = {"src/x/com/a/Main.java", "src/y/com/b/Main.java"}
+    recs = [("com/a/Main.java", {"lines": [[1, 1]], "branches": [], "funcs": []}), ("com/b/Main.java", {"lines": [[3, 5]], "branches": [], "funcs": []})]
+    d0 = collections.Counter()
+    wchk_before = len(chk.violations)
+    java_case(chk, exe, root, files, recs, "y", d0, "cli-java-witness", known)
+    if d0["known_ignore_prunes_index"] and KF_JAVA in known:
+        chk.known(known[KF_JAVA])           # reproduced: SF:src/x/com/a/Main.java carries DA:1,1 and DA:3,5
+    elif len(chk.violations) == wchk_before:
+        dist["witness_now_right"] = 1       # neither wrong output nor violation: the defect is gone
+    shutil.rmtree(root, ignore_errors=True)
+    for ci in range(n):
+        root = os.path.join(sc, "j%d" % ci)
+        files, partial = set(), {}
+        for name in rng.sample(JNAMES, rng.randrange(1, 4)):
+            k = rng.choice([1, 2, 2, 3])
+            for d, pkg in zip(rng.sample(JDIRS, k), rng.sample(JPKGS, k)):
+                f = "src/%s/%s/%s" % (d, pkg, name)
+                files.add(f)
+                partial[f] = "%s/%s" % (pkg, name)
+        if rng.random() < 0.3:
+            # a Kotlin file outside its package directory: the only file of that name
+            f = "src/%s/misc/Only.kt" % rng.choice(JDIRS)
+            files.add(f)
+            partial[f] = "com/k/Only.kt"
+        cfiles = ["src/%s/plain%d.c" % (rng.choice(JDIRS), i) for i in range(rng.randrange(0, 3))]
+        files |= set(cfiles)
+        recs = []
+        for f in sorted(files):
+            if rng.random() < 0.1:
+                continue
+            spell = [partial[f]] if f in partial else [f]
+            if f in partial and rng.random() < 0.25:
+                spell.append(f)                                  # the full source-relative path as well (merged into one record)
+            if f in partial and rng.random() < 0.1:
+                spell = [f]
+            for k in spell:
+                i = len(recs)
+                lines = sorted(set(rng.sample([1, 2, 3, 4, 5, 6], rng.randrange(0, 3))))
+                recs.append((k, {"lines": [[l, rng.choice([0, 1, 3])] for l in lines] + [[1000 + i, rng.choice([0, 1])]], "branches": [], "funcs": []}))
+        if not recs:
+            continue
+        rng.shuffle(recs)
+        d = rng.choice(JDIRS)
+        ok = java_case(chk, exe, root, files, recs, d, dist, "cli-java", known)
+        names = collections.Counter(f.rsplit("/", 1)[-1] for f in partial)
+        dist["cases"] += 1
+        dist["cases_with_same_named_files"] += any(v > 1 for v in names.values())
+        dist["cases_with_misplaced_sole_file"] += any(f.endswith("Only.kt") for f in files)
+        if ok:
+            chk.nontrivial(("cli-java", sorted(files), [k for k, _ in recs], d))
+        shutil.rmtree(root, ignore_errors=True)
+    return dict(dist)
+
+
+# ---------------------------------------------------------------------------------------------
+# CLI stream, -p prefixes that exist on this machine: the prefix is removed as the literal leading components of the
+# recorded paths, whatever the local filesystem says about it (symlink, relative, "..", "./")
+# ---------------------------------------------------------------------------------------------
+def prefix_stream(chk, n):
+    import os, shutil, c12
+    exe = vlib.build_cli()
+    sc = os.path.realpath(vlib.scratch("clip_" + chk.pid))
+    rng = chk.rng
+    dist = collections.Counter()
+    for ci in range(n):
+        root = os.path.join(sc, "p%d" % ci)
+        run_dir = os.path.join(root, "run")
+        for dname in ("build/obj", "run/build/obj", "src/foo", "src/lib", "other"):
+            os.makedirs(os.path.join(root, dname), exist_ok=True)
+        os.symlink(os.path.join(root, "build"), os.path.join(root, "lnk"))
+        os.symlink("../other", os.path.join(root, "build", "rel_lnk"))
+        for u in ("foo/bar.c", "lib/util.h"):
+            if rng.random() < 0.6:
+                open(os.path.join(root, "src", u), "w").write("x\n")
+        kind = rng.choice(["symlink", "symlink-sub", "relative", "relative-dot", "dotdot", "dot", "symlink-rel-target", "absent"])
+        P = {"symlink": root + "/lnk", "symlink-sub": root + "/lnk/obj", "relative": "build/obj", "relative-dot": "./build/obj",
+             "dotdot": root + "/other/../build/obj", "dot": root + "/./build/obj", "symlink-rel-target": root + "/build/rel_lnk",
+             "absent": "/builds/worker/checkout"}[kind]
+        rec_prefix = root + "/build/obj" if kind == "dot" else P       # "./" inside the option: the recorded paths are written without it
+        sd = os.path.join(root, "src") if rng.random() < 0.5 else None
+        unders = rng.sample(["foo/bar.c", "lib/util.h", "gone/missing.c", "main.c"], rng.randrange(1, 4))
+        recs, intent = [], []
+        for u in unders:
+            for k in rng.sample([rec_prefix + "/" + u, rec_prefix + "//" + u, rec_prefix + "/./" + u], rng.randrange(1, 3)):
+                i = len(recs)
+                recs.append((k, {"lines": [[rng.choice([1, 2, 3]), rng.choice([0, 2])], [1000 + i, 1]], "branches": [], "funcs": []}))
+                intent.append(u)
+        info = os.path.join(run_dir, "in.info")
+        open(info, "w").write(c12.render_lcov(recs))
+        args = [exe, info, "-p", P] + (["-s", sd] if sd else []) + ["-t", "lcov"]
+        p = vlib.sh(args, cwd=run_dir, timeout=120)
+        chk.count()
+        replay = {"kind": "oracle", "engine": "cli-prefix", "args": args[1:], "prefix_kind": kind, "input": c12.render_lcov(recs), "lcov": p.stdout[-3000:]}
+        if p.returncode != 0:
+            chk.violation(dict(replay, stderr=p.stderr[-600:], clause="grcov must produce a report"), tag="cli-prefix")
+            continue
+        want = expected_report(recs, intent, lambda p_: True)
+        got = lcov_report(p.stdout)
+        if got != want:
+            chk.violation(dict(replay, reported=sorted(got.elements()), expected=sorted(want.elements()),
+                               clause="reported paths have the prefix directory removed (the literal leading components given with -p), data unchanged"), tag="cli-prefix")
+        else:
+            chk.nontrivial(("cli-prefix", kind, bool(sd), [k.replace(root, "{R}") for k, _ in recs]))
+        dist["cases"] += 1
+        dist["prefix_" + kind] += 1
+        dist["with_source_dir"] += bool(sd)
+        shutil.rmtree(root, ignore_errors=True)
+    return dict(dist)
+
+
 def witness_case(keys, sd=None, pd=None, mapping=None, files=(), dirs=("src",)):
     hx = pathgen.hx
     return {"id": -1, "dirs": [hx(d) for d in dirs], "files": [hx(f) for f in files], "symlinks": [], "cwd": hx(""),
@@ -401,7 +616,10 @@ def run(chk):
         cases.append(c)
     d2 = rewrite_stream(chk, wit + cases, "rw")
     d3 = cli_stream(chk, 40 if quick else 400)
-    chk.extra["distribution"] = {"pathfacts": d1, "rewrite": d2, "cli": d3}
+    known = {e["key"]: e for e in vlib.known_findings(chk.pid)}
+    d4 = java_stream(chk, 40 if quick else 400, known)
+    d5 = prefix_stream(chk, 40 if quick else 400)
+    chk.extra["distribution"] = {"pathfacts": d1, "rewrite": d2, "cli": d3, "cli_java": d4, "cli_prefix": d5}
     chk.cov["rule"] = ("(1) std::path facts: generated pairs of path strings (tokens '/', '//', '.', '..', names, UTF-8, backslash; second operand a "
                        "re-spelt prefix/suffix of the first half of the time): components, join, starts_with, ends_with, strip_prefix, parent, ancestors, "
                        "normalize_path, has_no_parent through std::path/grcov vs Model/Paths.v vs the driver's reading of Appendix D (components, escape "
@@ -412,14 +630,19 @@ def run(chk):
                        "(3) CLI: tracefiles with several spellings of 2-4 files, -s / -p on or off, and the reports of no filter, --ignore G, --keep-only G, --filter covered, "
                        "--filter uncovered, --ignore-not-existing compared as multisets of (path, merged data): both partitions, covered/uncovered reading on the "
                        "merged record (merge_same_paths runs before the filter), existence on disk, normal form. "
+                       "(4) CLI, Java/Kotlin partial paths: source trees with 1-3 same-named .java/.kt files in different directories (and a sole file outside its package "
+                       "directory), package-relative and full records, -s, and the reports of no glob / --ignore src/<d>/* / --keep-only src/<d>/*: unfiltered mapping, "
+                       "then the glob partition (the --ignore half inside the known class ignore-prunes-partial-path-index must be exactly the recorded wrong output). "
+                       "(5) CLI, -p prefixes that exist locally as a symlink, a relative path, with '..' or './' segments, or not at all: removed as the literal "
+                       "leading components of the recorded paths. "
                        "non-trivial = a rewrite case with at least one reported record that passed every oracle, or a facts pair on which model and std agree; distinct by content")
     chk.cov["trusted_base"] = ["Coq kernel; vm_compute for the correspondence",
                                "globset crate (its verdict on every candidate path enters the model as data; the theorems quantify over all verdict functions)",
                                "OS path resolution / fs::canonicalize (the model walks an explicit tree value; agreement is checked on generated trees incl. symlinks)",
                                "impl_run harness (materialises the tree, chdir, calls rewrite_paths), Python oracles",
-                               "not modelled: Java/Kotlin partial-path lookup (no generated key ends in .java/.kt), Windows branches, Unicode case mapping of a non-ASCII first character in apply_mapping, exclusion markers (C16)"]
+                               "not modelled in Gallina: Java/Kotlin partial-path lookup (checked through the CLI only, against the driver's reading), Windows branches, Unicode case mapping of a non-ASCII first character in apply_mapping, exclusion markers (C16)"]
     chk.assumptions = ["keys, prefix dir and mapped values do not end in '/' or '/.' while naming a regular file (PathBuf keeps raw bytes; the model keeps components)",
-                       "no key has the extension java or kt when a source directory is given (map_partial_path is outside the model)",
+                       "engine stream: no key has the extension java or kt when a source directory is given (map_partial_path is outside the model; it is exercised by the CLI stream); there, package-relative paths are unambiguous (at most one file ends with a given partial path), no hidden or symlinked directories",
                        "globs are valid (Glob::new(..).unwrap()), mapping values are JSON strings",
                        "symlink chains are shorter than the OS limit (the model's walk has fuel 4000 steps)"]
 
